@@ -273,3 +273,71 @@ def run(ctx: Ctx):
     )
     ctx.guarded(fixed_not_written, ctx)
     ctx.guarded(pure_move, ctx)
+    res.rule("WEIGHTS-SEEN", "PARAFAC2 (warm start with any weights): typestate of the weights along every branch-consistent path -- a call that receives the factor list without the weights is only reached when the weights were just reset to ones after being absorbed into a factor", floor=1)
+    ctx.guarded(weights_seen, ctx)
+
+
+# ---------------------------------------------------------------------------------
+# WEIGHTS-SEEN: a warm start's weights are part of the model every consumer sees
+# ---------------------------------------------------------------------------------
+WEIGHTED_DRIVERS = [
+    # (driver, weights name, factor-list name)
+    ("tensorly.decomposition._parafac2.parafac2", "weights", "factors"),
+]
+NOT_CONSUMERS = {"list", "tuple", "len", "enumerate", "zip", "range", "copy", "print", "isinstance", "shape", "ndim", "reversed", "sorted", "context"}
+
+
+class _WeightsRule:
+    """typestate of the weights: LIVE (may differ from ones: user initialisation, normalisation)
+    or ONES (just reset to ones after being absorbed into a factor)"""
+
+    def __init__(self, f, w, fs):
+        self.f, self.w, self.fs = f, w, fs
+
+    def init_state(self):
+        return "UNSET"
+
+    def transfer(self, node, st, ex):
+        a = node.ast
+        if a is None or node.kind not in ("stmt", "test", "return", "for", "with"):
+            return st
+        # consumers are judged in the state before this statement's own assignments
+        scan = a.iter if node.kind == "for" and isinstance(a, ast.For) else (a.test if node.kind == "test" and hasattr(a, "test") else a)
+        if st == "LIVE":
+            for c in ast.walk(scan):
+                if isinstance(c, ast.Call) and call_name(c) not in NOT_CONSUMERS:
+                    argnodes = list(c.args) + [k.value for k in c.keywords]
+                    direct = [x for x in argnodes if any(isinstance(n, ast.Name) and n.id == self.fs for n in ast.walk(x))]
+                    # a call nested in an argument is judged on its own
+                    direct = [x for x in direct if not isinstance(x, ast.Call) or call_name(x) in NOT_CONSUMERS]
+                    if not direct:
+                        continue
+                    has_w = any(isinstance(n, ast.Name) and n.id == self.w for x in argnodes for n in ast.walk(x))
+                    if not has_w:
+                        ex.report(("WEIGHTS-SEEN", src(c)[:70]), f"`{src(c)[:90]}` receives the factor list `{self.fs}` without `{self.w}` on a path where the weights have not been absorbed into a factor (they may differ from ones: a user-supplied initialisation, or the previous iteration's normalisation): the callee works on a different tensor than the model represents", node)
+        if node.kind == "stmt" and isinstance(a, (ast.Assign, ast.AugAssign)):
+            tgs = a.targets if isinstance(a, ast.Assign) else [a.target]
+            names = [n.id for t in tgs for n in ast.walk(t) if isinstance(n, ast.Name) and isinstance(n.ctx, ast.Store)]
+            if self.w in names:
+                v = a.value
+                if isinstance(a, ast.Assign) and len(tgs) == 1 and isinstance(tgs[0], ast.Name) and isinstance(v, ast.Call) and call_name(v) in ("ones", "ones_like"):
+                    return "ONES"
+                return "LIVE"
+        return st
+
+
+def weights_seen(ctx: Ctx):
+    res = ctx.res
+    for q, w, fs in WEIGHTED_DRIVERS:
+        f = ctx.repo.func(q)
+        stores = [s for s in own_scope_nodes(f.node) if isinstance(s, ast.Assign) and any(isinstance(n, ast.Name) and n.id == w and isinstance(n.ctx, ast.Store) for t in s.targets for n in ast.walk(t))]
+        if not stores:
+            raise AnalysisError(f"WEIGHTS-SEEN: `{w}` is never assigned in {q}; the driver table is stale")
+        g = build_cfg(f.node, f.qname)
+        ex = Explorer(g, _WeightsRule(f, w, fs), track="corr").run()
+        consumers = [c for c in own_scope_nodes(f.node) if isinstance(c, ast.Call) and call_name(c) not in NOT_CONSUMERS and any(isinstance(n, ast.Name) and n.id == fs for x in list(c.args) + [k.value for k in c.keywords] for n in ast.walk(x))]
+        res.instance("WEIGHTS-SEEN", f"{q}: {len(consumers)} consumers of `{fs}`", sample={"consumers": [src(c)[:60] for c in consumers][:12], "states": ex.states, "paths": ex.paths_to_exit, "truncated": ex.truncated})
+        if ex.truncated:
+            raise AnalysisError(f"WEIGHTS-SEEN: state budget exceeded in {q}; cannot decide")
+        for v in ex.violations.values():
+            ctx.finding("WEIGHTS-SEEN", f, v.node.ast if v.node is not None else f.node, v.message, construct=f"{f.name}: {v.key[1]} without weights", path=v.path)
